@@ -109,7 +109,8 @@ impl ValBuilder {
         let w_word = if matches!(word, Some(n) if n <= 9) { 6 } else { 0 };
         let w_zero = if is_zero { 4 } else { 0 };
         let deep = depth >= 3;
-        let w_machine = if self.allow_machine && !deep && ty.width > 0 && ty.width <= 4096 { 3 } else { 0 };
+        // (zero-width types other than unit included: the machine has to return them at their own type)
+        let w_machine = if self.allow_machine && !deep && (ty.width > 0 || !ty.is_unit()) && ty.width <= 4096 { 3 } else { 0 };
         let w_extract = if deep { 0 } else { 8 };
         let w_prune = if deep { 0 } else { 5 };
         match src.weighted(&[10, w_word, 6, 8, w_extract, w_prune, w_zero, w_machine]) {
